@@ -434,7 +434,7 @@ pub fn run(tier: &str, _seed: u64) -> Sink {
     });
     // generated families: small grid (layout classes + the options that change decisions)
     let gen_items = crate::gen::all();
-    let gg: Vec<(String, Config)> = g.iter().filter(|(n, _)| ["default", "w40", "w10", "w1", "w80-sp2-single-crlf", "w120-callnone-collapse"].contains(&n.as_str())).cloned().collect();
+    let gg: Vec<(String, Config)> = g.iter().filter(|(n, _)| ["default", "w40", "w10", "w1", "w80-sp2-single-crlf", "w120-callnone-collapse", "w80-sp1"].contains(&n.as_str())).cloned().collect();
     let gen_n = gen_items.len() * gg.len();
     let gen_parts = par_map(gen_n, threads(), |k| {
         let it = &gen_items[k / gg.len()];
